@@ -208,6 +208,8 @@ def eval_clause(it, clause, env, func):
             v = clause(it, env)
         else:
             v = it.eval(ast.parse(clause.strip(), mode="eval").body, fr)
+    except PyRaise:
+        v = False          # a clause whose value is undefined (missing key, bad index) does not hold
     finally:
         it.spec_mode -= 1
     return it.as_bool(v)
